@@ -195,4 +195,18 @@ PROPS = {
             "child templates start with the extends tag",
         ],
     },
+    "C12": {
+        "quick": [
+            {"test": "TestC12Scope", "checks": 40000, "shards": 4},
+            {"test": "TestC12Keys", "checks": 2000},
+        ],
+        "thorough": [
+            {"test": "TestC12Scope", "checks": 1600000, "shards": 16},
+            {"test": "TestC12Keys", "checks": 20000},
+        ],
+        "assumptions": [
+            "the reference environment model of harness/props/mm_test.go (child scope = copy; with-pairs evaluated in the outer scope; one scope per for-loop shared by its iterations; macro body runs in a child of the defining scope taken at call time, against the definer's context; include builds a fresh public context from the includer's public+private names (+pairs, or pairs only) plus the globals)",
+            "macro results are not passed as macro arguments; included files define no macros",
+        ],
+    },
 }
